@@ -381,6 +381,75 @@ fn run_values(o: &mut Outcome, si: usize, di: usize, nch: usize, vals: &[f64]) {
     o.bulk_nontrivial += n as u64;
 }
 
+/// Integer sources: a big image of random values (more than 2^14 / 2^22 components, where an implementation
+/// might switch to another code path) must convert every component exactly like the small ramp did.
+fn big_image(o: &mut Outcome, si: usize, di: usize, nch: usize) {
+    let (sc, dc) = (COMPS[si], COMPS[di]);
+    let spt = img::pt_of(sc, nch).unwrap();
+    let dpt = img::pt_of(dc, nch).unwrap();
+    let n = if sc == Comp::U8 { 256usize } else { 65536 };
+    // per-value table from a one-row ramp
+    let mut ramp = Buf::new(n * spt.size());
+    for v in 0..n {
+        for ch in 0..nch {
+            img::set_comp(sc, ramp.bytes_mut(), v * nch + ch, v as f64);
+        }
+    }
+    let mut rout = Buf::new(n * dpt.size());
+    if !matches!(convert(spt, dpt, n as u32, 1, ramp.bytes(), rout.bytes_mut(), n as u32, 1), Ok(Ok(()))) {
+        o.fail("ramp conversion failed".to_string());
+        return;
+    }
+    let table: Vec<f64> = (0..n).map(|v| img::get_comp(dc, rout.bytes(), v * nch)).collect();
+    let (w, h): (u32, u32) = if sc == Comp::U8 {
+        (611, 300)
+    } else if nch == 1 {
+        (2100, 2000)
+    } else {
+        (1300, 900)
+    };
+    let total = (w * h) as usize;
+    let mut src = Buf::new(total * spt.size());
+    let mut r = Mix::new(0xB16 + si as u64 * 7 + di as u64 * 3 + nch as u64);
+    for i in 0..total * nch {
+        img::set_comp(sc, src.bytes_mut(), i, r.below(n as u64) as f64);
+    }
+    let mut dst = Buf::new(total * dpt.size());
+    dst.fill(0x5A);
+    match convert(spt, dpt, w, h, src.bytes(), dst.bytes_mut(), w, h) {
+        Ok(Ok(())) => {}
+        Ok(Err(e)) => {
+            o.fail(format!("big image {}x{} returned {}", w, h, e));
+            return;
+        }
+        Err(p) => {
+            o.fail(format!("panic on a big image {}x{}: {}", w, h, p));
+            return;
+        }
+    }
+    for i in 0..total * nch {
+        let v = img::get_comp(sc, src.bytes(), i);
+        let got = img::get_comp(dc, dst.bytes(), i);
+        let want = table[v as usize];
+        if !(got == want) {
+            o.fail(format!(
+                "{} -> {}: in a {}x{} image component {} ({:?}) converts to {:?}, but to {:?} in a small image",
+                img::pt_name(spt),
+                img::pt_name(dpt),
+                w,
+                h,
+                i,
+                v,
+                got,
+                want
+            ));
+            return;
+        }
+    }
+    o.evals += (total * nch) as u64;
+    o.label_n("big-image-components", (total * nch) as u64);
+}
+
 fn enumerate(tape: &[u8]) -> Outcome {
     let (si, di, nch, mode, chunk) = (tape[1] as usize % 4, tape[2] as usize % 4, (tape[3] as usize).clamp(1, 4), tape[4], tape[5] as u32);
     let (sc, dc) = (COMPS[si], COMPS[di]);
@@ -404,6 +473,9 @@ fn enumerate(tape: &[u8]) -> Outcome {
     let chunk = if mode == 2 { chunk % 16 } else { chunk };
     let vals = source_values(sc, mode, chunk);
     run_values(&mut o, si, di, nch, &vals);
+    if mode == 0 && !o.failed() {
+        big_image(&mut o, si, di, nch);
+    }
     o.label_n(format!("pair:{:?}->{:?}", sc, dc), vals.len() as u64);
     o
 }
